@@ -76,6 +76,8 @@ def validate(chk, path, name, module="Trace_Lang", consts=None, fac="UStdFacR", 
         write_cfg(cfg, dict(PARSER_REPAIRED, **(consts or {})), fac=None)
     elif module in ("Trace_Display", "Trace_Facts", "Trace_Codec", "Trace_Cli"):
         write_cfg(cfg, dict(consts or {}), fac=None)
+    elif module == "Trace_Describe":
+        write_cfg(cfg, dict(DEFAULT_CONSTS, **dict(PARSER_REPAIRED, **(consts or {}))), fac=fac)
     elif module in ("Trace_Laws", "Trace_Words"):
         write_cfg(cfg, dict({"ZeroEntriesKept": "FALSE"}, **(consts or {})), fac=fac)
     else:
